@@ -449,7 +449,10 @@ func genMap(r *rand.Rand, maxSpan int64, steps int) ([]op, []string) {
 // genMapBig: few operations that take the buffer to capacity target and back to 128.
 func genMapBig(r *rand.Rand, target int64) ([]op, []string) {
 	g := &mapGen{r: r, rec: twcc.NewRecorder(1), ssrc: 7001, intent: map[string]bool{}, maxSpan: target}
-	start := target + r.Int63n(65536-2*target)
+	start := target
+	if span := 65536 - 2*target; span > 0 {
+		start += r.Int63n(span)
+	}
 	g.t = int64(1000 + r.Intn(100000))
 	g.record(start)
 	g.t += 500
